@@ -28,6 +28,11 @@ def generate(rng, tier):
             cands.append(b + "-" + v)
         if rng.random() < 0.2:
             cands[-1] = cands[0]
+        if rng.random() < 0.25 and len(cands) >= 2:
+            # letters and modifiers compare case-insensitively: a case variant ties, a neighbouring letter in the other case does not
+            v0 = rng.choice(["2.0b", "1.0a", "3c", "1.0rc1", "1.0alpha2", "2.0z", "1.5m4"])
+            cands[0] = base + "-" + v0
+            cands[1] = base + "-" + rng.choice([v0.upper(), v0.swapcase(), v0[:-1] + chr(ord(v0[-1]) + 1).upper() if v0[-1].isalpha() else v0.upper(), v0.replace("b", "C").replace("a", "B")])
         if rng.random() < 0.35:
             # hyphenated bases that differ after their first '-': the version is what follows the LAST '-'
             hb = rng.sample(["foo-b", "foo-a", "x-9", "x-1", "p5-DBD-mysql", "p5-DBD-MariaDB", "lib-alpha", "lib-beta", "a-2.0", "a-1"], 3)
@@ -71,6 +76,8 @@ def laws(cases, obsI):
                 return b
             if b is None:
                 return a
+            if a == "?" or b == "?":
+                return "?"            # an earlier answer was no answer (panic, error): nothing to fold
             o = obsI[g["best"][(cands.index(a), cands.index(b))]]
             if o == "N":
                 return None
